@@ -18,6 +18,7 @@ pub struct Doc<'a> {
 
 /// layout / comment variants used by the navigation checks
 pub fn doc_variants(pr: &Printed, n: usize) -> Vec<(Layout, Vec<usize>)> {
+    let n = n + 1; // + the lone-CR layout
     let decl_starts: Vec<usize> = pr.decl_spans.iter().map(|s| s.0).collect();
     let all: Vec<usize> = (0..=pr.toks.len()).collect();
     let mut v = vec![
@@ -27,6 +28,7 @@ pub fn doc_variants(pr: &Printed, n: usize) -> Vec<(Layout, Vec<usize>)> {
         (Layout::Minimal, vec![]),
         (Layout::Lines, decl_starts),
         (Layout::Tabs, all.into_iter().step_by(2).collect()),
+        (Layout::Cr, vec![]),
     ];
     v.truncate(n);
     v
